@@ -264,6 +264,15 @@ func reportViolation(e Engine, o WorkerOpts, u, sub int, plan any, r *Result) (s
 
 const hangLimit = 10 * time.Second
 
+// hangLimitFor: the watchdog limit of this process (GOATSIM_HANG seconds overrides it: the
+// triage gives a stalled plan a second, much longer chance before calling it wedged).
+func hangLimitFor() time.Duration {
+	if v, err := strconv.Atoi(os.Getenv("GOATSIM_HANG")); err == nil && v > 0 {
+		return time.Duration(v) * time.Second
+	}
+	return hangLimit
+}
+
 // watchdog is the only other goroutine of a worker. It never touches the
 // simulation; it only notices that one plan has been executing for longer
 // than hangLimit, saves that plan and ends the process.
@@ -271,7 +280,7 @@ func watchdog(hs *hangState, cur *atomic.Value, o WorkerOpts, out *bufio.Writer)
 	for {
 		time.Sleep(500 * time.Millisecond)
 		st := hs.start.Load()
-		if st == 0 || time.Since(time.Unix(0, st)) < hangLimit {
+		if st == 0 || time.Since(time.Unix(0, st)) < hangLimitFor() {
 			continue
 		}
 		p := cur.Load().(*any)
